@@ -22,7 +22,7 @@ def pe(e, ind=0):
     if k == 'Var' or k == 'Upvar': return e['name']
     if k == 'Field': return pe(e['lhs'], ind) + '.' + e['name']
     if k == 'Deref': return '*' + pe(e['arg'], ind)
-    if k == 'Borrow': return ('&mut ' if e['mut'] else '&') + pe(e['arg'], ind)
+    if k == 'Borrow': return ('&mut ' if e.get('mut') else '&') + pe(e['arg'], ind)
     if k == 'Lit':
         for x in ('int', 'bool', 'str', 'bytes', 'char'):
             if x in e: return repr(e[x]) + (':' + e['ty'] if x == 'int' else '')
